@@ -71,10 +71,11 @@ OptionalKinds == {"pyc", "plain", "extratxt"}
 \* a Python file nowhere referenced; CHANGES 2.0: "The reloader ignores ``__pycache__`` directories again."
 NeverKinds    == {"stray", "pycache"}
 
-ClsOf(x, f) == LET k == x.files[f].kind IN
-               IF k \in NeverKinds \/ k \notin (MustKinds \cup OptionalKinds) THEN "unwatched"
+ClsOfN(x, f, never) == LET k == x.files[f].kind IN
+               IF k \in never \/ k \notin (MustKinds \cup OptionalKinds \cup NeverKinds) THEN "unwatched"
                ELSE IF \E p \in 1..Len(x.pats) : Glob(x.pats[p], x.files[f].path) THEN "excluded"
                ELSE IF k \in MustKinds THEN "watched" ELSE "optional"
+ClsOf(x, f) == ClsOfN(x, f, NeverKinds)
 
 \* ------------------------------------------------------------------------------ the run
 NoCode == 999
@@ -210,7 +211,60 @@ EvalEcho(x) == <<IF x.exc # "" THEN "EchoNoCrash"
                  ELSE IF x.kind \in {"echo_off", "echo_on"} /\ x.after # 1 THEN "EchoEnabled" ELSE "ok",
                  IF x.kind \in {"echo_off", "echo_on"} /\ x.same # 1 THEN "ensure_echo_on changed other terminal attributes" ELSE "", 0, 0>>
 
+\* ------------------------------------------------------------------------------ WatchdogReloaderLoop
+\* docs/serving.rst: "The ``watchdog`` backend uses filesystem events"; same contract: "restarts the server if any of the
+\* observed files change", never for exclude_patterns; _find_watchdog_paths: "Looks at the same sources as the stat
+\* reloader, but watches everything under directories instead of individual files."; docs note: "Some edge cases, like
+\* modules that failed to import correctly, are not handled by the stat reloader ... The watchdog reloader monitors such
+\* files too." (a Python file nowhere referenced may reload); CHANGES 2.3: "The Watchdog reloader ignores file opened
+\* events."  3.0.4: "The Watchdog reloader ignores file closed no write events."  0.10.2: "Correctly detect file changes
+\* made by moving temporary files over the original".   WatchdogReloaderLoop.run: "sys.exit(3)" once a change was seen.
+\*  events: wd_watch (a: <<directory>>, s: recursive|flat), sleep (m), wd_event (s: type, f), wd_flag (should_reload became
+\*  true during the dispatch of the last wd_event), exit (c), end (s: "" | "return" | exception class)
+WdMustTypes    == {"modified", "created", "moved_over"}
+WdMayTypes     == {"deleted", "moved_away", "closed"}          \* acted on by the code; not stated
+WdIgnoredTypes == {"opened", "closed_no_write"}
+SLASH == 47
+Under(d, p) == /\ Len(d) < Len(p) /\ SubSeq(p, 1, Len(d)) = d /\ p[Len(d) + 1] = SLASH
+Direct(d, p) == Under(d, p) /\ \A j \in (Len(d) + 2)..Len(p) : p[j] # SLASH
+Wd0 == [cur |-> 0, curt |-> "", flagged |-> FALSE, curflag |-> FALSE, watches |-> {}, sleeps |-> 0, v |-> "ok", k |-> 0, wf |-> 0]
+WdFinal(cl, st) == IF st.cur # 0 /\ st.curt \in WdMustTypes /\ cl[st.cur] = "watched" /\ ~st.flagged
+                   THEN [st EXCEPT !.v = "WdChangeMissed", !.wf = st.cur] ELSE st
+WdStep(x, cl, st0, e) ==
+  LET st == IF e.e \in {"wd_event", "sleep", "exit", "end"} THEN WdFinal(cl, st0) ELSE st0 IN
+  IF st.v # "ok" THEN st
+  ELSE CASE e.e = "wd_watch" -> [st EXCEPT !.watches = st.watches \cup {[p |-> e.a[1], r |-> e.s = "recursive"]}]
+    [] e.e = "sleep" ->
+         IF e.m # x.interval THEN [st EXCEPT !.v = "RegularInterval"]
+         ELSE IF st.flagged THEN [st EXCEPT !.v = "WdExitAfterChange"]
+         ELSE IF st.sleeps = 0 /\ \E f \in 1..Len(x.files) :
+                   /\ cl[f] = "watched" /\ x.files[f].exists
+                   /\ ~\E w \in st.watches : IF w.r THEN Under(w.p, x.files[f].path) ELSE Direct(w.p, x.files[f].path)
+              THEN [st EXCEPT !.v = "WdWatchCovers",
+                              !.wf = CHOOSE f \in 1..Len(x.files) : /\ cl[f] = "watched" /\ x.files[f].exists
+                                        /\ ~\E w \in st.watches : IF w.r THEN Under(w.p, x.files[f].path) ELSE Direct(w.p, x.files[f].path)]
+         ELSE [st EXCEPT !.sleeps = st.sleeps + 1, !.cur = 0]
+    [] e.e = "wd_event" -> IF e.f < 1 \/ e.f > Len(x.files) THEN st ELSE [st EXCEPT !.cur = e.f, !.curt = e.s]
+    [] e.e = "wd_flag" ->
+         IF st.cur = 0 THEN [st EXCEPT !.v = "WdReloadOnlyOnChange"]
+         ELSE IF st.curt \in WdIgnoredTypes THEN [st EXCEPT !.v = "WdIgnoredEventTypes", !.wf = st.cur]
+         ELSE IF cl[st.cur] = "excluded" THEN [st EXCEPT !.v = "WdNeverForExcluded", !.wf = st.cur]
+         ELSE IF cl[st.cur] = "unwatched" THEN [st EXCEPT !.v = "WdReloadOnlyObserved", !.wf = st.cur]
+         ELSE [st EXCEPT !.flagged = TRUE]
+    [] e.e = "exit" -> IF ~st.flagged THEN [st EXCEPT !.v = "WdReloadOnlyOnChange"]
+                       ELSE IF e.c # 3 THEN [st EXCEPT !.v = "WdExitsWith3"] ELSE [st EXCEPT !.cur = 0]
+    [] e.e = "end" -> IF e.s # "" THEN [st EXCEPT !.v = "WatcherCrash"] ELSE [st EXCEPT !.cur = 0]
+    [] OTHER -> st
+RECURSIVE WdRun(_, _, _, _)
+WdRun(x, cl, st, k) == IF k > Len(x.ev) \/ st.v # "ok" THEN st
+                       ELSE WdRun(x, cl, [WdStep(x, cl, st, x.ev[k]) EXCEPT !.k = k], k + 1)
+EvalWd(x) == LET n  == Len(x.files)
+                 cl == [f \in 1..n |-> ClsOfN(x, f, {"pycache"})]
+                 st == WdRun(x, cl, Wd0, 1)
+             IN  <<st.v, "", st.k, st.wf>>
+
 Eval(x) == CASE x.op = "case" -> EvalCase(x)
+             [] x.op = "wd" -> EvalWd(x)
              [] x.op = "args" -> EvalArgs(x)
              [] x.op = "echo" -> EvalEcho(x)
              [] x.op = "glob" -> <<"ok", IF Glob(x.pat, x.s) # x.got THEN "glob-selftest" ELSE "", 0, 0>>
